@@ -396,7 +396,8 @@ def generate(prop, seed):
             'knobs': {'sock_chunk': rng.choice([1, 3, 7, 8192]),
                       'short_reads': rng.random() < 0.6,
                       'sign_read': rng.random() < 0.3, 'pre_read': rng.random() < 0.2,
-                      'latency': wchoice(rng, [('none', 3), ('random', 1)])},
+                      'latency': wchoice(rng, [('none', 3), ('random', 1)]),
+                      'fs_buffer': wchoice(rng, [(8192, 3), (0, 1), (3, 1)])},
             'strategy': gen_strategy(rng, est), 'sched_seed': rng.randrange(1 << 62),
             'fs_seed': rng.randrange(1 << 30), 'max_steps': 60 * est + 20000,
             'seed': seed, 'prop': prop}
